@@ -53,7 +53,7 @@ def run_impl(binary, script_path, timeout=60):
     except subprocess.TimeoutExpired:
         return -999, '', 'timeout'
 
-def run_model(script_path, timeout=120):
+def run_model(script_path, timeout=240):
     drv = os.path.join(BUILD, 'ml', 'model_driver')
     try:
         r = subprocess.run([drv, script_path], capture_output=True, text=True, timeout=timeout)
@@ -156,6 +156,13 @@ def run_case(args):
         if jrc != 0:
             res['status'] = 'judge_error'; res['detail'] = jerr
             return res
+    if rc_m == -999:
+        # the extracted model did not finish in time (very large tables are slow in the functional model, more so on a
+        # loaded machine): inconclusive for the slot-exact comparison, the acceptor's verdict on the implementation stands
+        if rc_i != 0:
+            res['status'] = 'impl_crash'; res['detail'] = 'exit %s %s' % (rc_i, err_i[-500:]); return res
+        res['status'] = 'blamed' if res.get('blames') else 'model_timeout'
+        return res
     if rc_m != 0:
         res['status'] = 'model_error'; res['detail'] = err_m[-500:]
         return res
